@@ -147,9 +147,21 @@ var entries = []entry{
 
 var errReceiver = errors.New("receiver changed")
 
+var entriesReversed = func() []entry {
+	out := make([]entry, len(entries))
+	for i, e := range entries {
+		out[len(entries)-1-i] = e
+	}
+	return out
+}()
+
 func judgeText(c Case, w *vkit.W) (accepted bool) {
 	text := string(c.Text)
-	for _, e := range entries {
+	order := entries
+	if w.Flip() { // the order of the entry points alternates
+		order = entriesReversed
+	}
+	for _, e := range order {
 		v := oracle(text, e.form)
 		got, err := e.call(text, w)
 		if e.bytes && err == nil {
